@@ -89,9 +89,24 @@ def build(ctx):
     obs = []
 
     def is_difference():
-        o = one_path(ctx, CC, [p, So, phi, Sw, pvt_dict()])
-        spec = storage(p + HALF, So, Sw, phi) - storage(p - HALF, So, Sw, phi)
-        return o.value, spec, None, o
+        # pressure as python float, python int, and as an int64 array (the shipped multiphase table has an integer pressure column)
+        pint = tm.var("p", tm.I)
+        jj = tm.var("j", tm.I)
+        parr = ArrV((tm.var("n", tm.I),), lambda i: tm.app("p_in", i, tm.I), "i8", name="p_in")
+        v = None
+        for tag, parg, pel in (("float", p, p), ("python int", pint, pint), ("int64 array", parr, tm.app("p_in", [jj], tm.I))):
+            o = one_path(ctx, CC, [parg, So, phi, Sw, pvt_dict()])
+            val = o.value.get(jj) if isinstance(o.value, ArrV) else o.value
+            pr_ = tm.toreal(pel)
+            spec = storage(pr_ + HALF, So, Sw, phi) - storage(pr_ - HALF, So, Sw, phi)
+            sub = {pel: tm.var("p")} if pel is not p else {}
+            v = be.prove_equal_cas(tm.subst(val, sub), tm.subst(spec, sub), BOX, seed=ctx.seed)
+            if v.status != be.PROVED:
+                v.detail = f"[pressure given as {tag}] " + v.detail
+                if v.witness is not None:
+                    v.witness["pressure_type"] = tag
+                return with_models(v, o)
+        return with_models(v, o)
 
     def c_real(pt):
         import numpy as np
@@ -104,9 +119,15 @@ def build(ctx):
             want = real_storage(pv, q + 0.5, so, sw, ph, RHO_REAL) - real_storage(pv, q - 0.5, so, sw, ph, RHO_REAL)
             if not close(got, want, 1e-9):
                 return got, want
+            qi = np.array([1000, 3000, 6000], dtype="int64")
+            goti = np.asarray(real(CC)(qi, so, ph, sw, fn), dtype=float)
+            wanti = np.array([real_storage(pv, float(x) + 0.5, so, sw, ph, RHO_REAL) - real_storage(pv, float(x) - 0.5, so, sw, ph, RHO_REAL) for x in qi])
+            if not close(goti, wanti, 1e-9):
+                return goti, wanti
         return got, want
 
-    obs.append(cas_ob(ctx, "c.is_difference", "compressibility_combined_func == S(p+0.5) - S(p-0.5) for the documented storage function at fixed saturations (PVT functions uninterpreted)", is_difference, BOX, [CC], c_real, tol=1e-9))
+    obs.append(Obligation("c.is_difference", "compressibility_combined_func == S(p+0.5) - S(p-0.5) for the documented storage function at fixed saturations (PVT functions uninterpreted), for float, integer and integer-array pressures", is_difference, [CC], "CAS",
+                          replay_pair(c_real, 1e-9, box=BOX, seed=ctx.seed)))
 
     def zero_const():
         o = one_path(ctx, CC, [p, So, phi, Sw, pvt_dict()])
